@@ -135,10 +135,14 @@ def install_chooser_monitor(rec_holder):
             return True
         rec.count("stack_weighted_choices")
         rec.count("evaluations")
-        if any(x == 0 for x in weights) and any(x > 0 for x in weights):
+        if any(isinstance(c, type) and c.__dict__.get("__gengy__", {}).get("weight", 1.0) == 0 for c in choices):
             rec.count("stack_zero_offers")
         idx = [i for i, c in enumerate(choices) if c is result]
-        if idx and weights[idx[0]] == 0 and any(x > 0 for x in weights):
+        # judged on the DECLARED (normalised) production weights, not on what the mapper chose to pass down
+        declared = [(c.__dict__.get("__gengy__", {}).get("weight", 1.0) if isinstance(c, type) and c.__module__ != "builtins" else 1.0) for c in choices]
+        if idx and declared[idx[0]] == 0 and any(x > 0 for x in declared):
+            rec.violation("zero-weight-production-chosen:stack-mapper", {"declared_weights": [round(x, 6) for x in declared], "passed_weights": [round(x, 6) for x in weights], "chosen": getattr(result, "__name__", str(result)), "grammar": rec_holder.get("grammar")})
+        elif idx and weights[idx[0]] == 0 and any(x > 0 for x in weights):
             rec.violation("zero-weight-production-chosen:stack-mapper", {"weights": [round(x, 6) for x in weights], "chosen_index": idx[0], "chosen": getattr(result, "__name__", str(result)), "grammar": rec_holder.get("grammar")})
         return True
 
